@@ -71,7 +71,7 @@ CHECKS = {
             "bit; the regex validator is C11's); valid_dfa / valid_nfa - the hypothesis of every other FA theorem - are exactly "
             "'duplicate-free keys and the constructor accepts'; for DFA, NFA, NPDA, DPDA, DTM/NTM and MNTM every exception raised is the documented exception "
             "of a rule that really is broken (rules stated declaratively, one constructor per documented rule with its exception), a "
-            "definition with a broken rule is rejected, and (all but MNTM) when all broken rules share one documented exception - in "
+            "definition with a broken rule is rejected, and when all broken rules share one documented exception - in "
             "particular a single broken rule - exactly that exception is raised; PDA constructors raise only the four documented "
             "kinds; the DPDA checker C02 reasons about is this checker; valid_pda is 'duplicate-free keys and the NPDA constructor accepts'; results of the Boolean DFA operations, of every expression tree of them, of DFA.from_nfa and of "
             "NFA.from_dfa pass validate() (collected from C04/C07; extended as further operations get their theorem); on a well-formed "
